@@ -160,6 +160,10 @@ def eval_format(sim, fmt):
 
 
 def _eval_assign_inner(sim, lhs, lhs_start, rhs, rhs_len):
+    # Bits that fall outside of `lhs` are dropped, at every level of nesting.
+    if lhs_start >= len(lhs):
+        return
+    rhs_len = min(rhs_len, len(lhs) - lhs_start)
     if isinstance(lhs, Operator) and lhs.operator in ("u", "s"):
         _eval_assign_inner(sim, lhs.operands[0], lhs_start, rhs, rhs_len)
     elif isinstance(lhs, Signal):
